@@ -408,10 +408,14 @@ pub fn cmd_open(a: &[&str]) -> String {
         }
     }
     let cpath = CString::new(path.clone()).unwrap();
+    let count_fds = || std::fs::read_dir("/proc/self/fd").map(|d| d.count()).unwrap_or(0);
+    let fds_before = count_fds();
     let r = std::panic::catch_unwind(|| match ShmReader::new(&cpath) {
         Ok(_) => "Ok".to_string(),
         Err(e) => crate::shm_err_pub(&e),
     });
+    // the reader (or the error) has been dropped: every descriptor the attempt opened must be closed again
+    let fds_leaked = count_fds() as i64 - fds_before as i64;
     let r2 = std::panic::catch_unwind(|| match clock_bound_client::ClockBoundClient::new_with_path(&path) {
         Ok(_) => "Ok".to_string(),
         Err(e) => format!("{:?} errno={}", e.kind, e.errno.0),
@@ -419,10 +423,62 @@ pub fn cmd_open(a: &[&str]) -> String {
     let _ = std::fs::remove_file(&path);
     let _ = std::fs::remove_dir(&path);
     format!(
-        "reader={} client={}",
+        "reader={} client={} fds_leaked={}",
         r.unwrap_or_else(|p| format!("panic {}", crate::panic_msg(&p))).replace(' ', "_"),
-        r2.unwrap_or_else(|p| format!("panic {}", crate::panic_msg(&p))).replace(' ', "_")
+        r2.unwrap_or_else(|p| format!("panic {}", crate::panic_msg(&p))).replace(' ', "_"),
+        fds_leaked
     )
+}
+
+/// open_race <k>: a client opens a published segment (record A) while the daemon publishes record B: the publication is performed in
+/// full at the k-th shared-memory access (atomic load / store / fence) that ShmReader::new makes, or right after it returned if it makes
+/// fewer than k.  The daemon is idle afterwards: the first snapshot() of that reader must be B, the last completed publication.
+pub fn cmd_open_race(a: &[&str]) -> String {
+    let k: usize = a.get(0).and_then(|x| x.parse().ok()).unwrap_or(1);
+    let path = tmp_path("orace");
+    let mut bytes = header_bytes(72, 1, 2);
+    bytes.extend_from_slice(&[0u8; 56]);
+    write_file(&path, &bytes);
+    let rec = |b: i64| ClockErrorBound::new(libc::timespec { tv_sec: b, tv_nsec: 0 }, libc::timespec { tv_sec: b + 1000, tv_nsec: 0 }, b, 1000, 0, ClockStatus::Synchronized);
+    let res = std::panic::catch_unwind(std::panic::AssertUnwindSafe(|| {
+        let writer = std::rc::Rc::new(std::cell::RefCell::new(ShmWriter::new(std::path::Path::new(&path)).expect("ShmWriter::new")));
+        writer.borrow_mut().write(&rec(111));
+        let cpath = CString::new(path.clone()).unwrap();
+        let n = std::rc::Rc::new(std::cell::Cell::new(0usize));
+        let wrote = std::rc::Rc::new(std::cell::Cell::new(0usize));
+        let (n2, w2, wr2) = (n.clone(), wrote.clone(), writer.clone());
+        set_observer(Some(Box::new(move |_acc| {
+            n2.set(n2.get() + 1);
+            if n2.get() == k && w2.get() == 0 {
+                w2.set(n2.get());
+                wr2.borrow_mut().write(&rec(222));
+            }
+        })));
+        let reader = ShmReader::new(&cpath);
+        set_observer(None);
+        let accesses = n.get();
+        if wrote.get() == 0 {
+            writer.borrow_mut().write(&rec(222));
+        }
+        let mut reader = match reader {
+            Ok(r) => r,
+            Err(e) => return format!("accesses_in_new={} wrote_at={} open_err={}", accesses, wrote.get(), crate::shm_err_pub(&e).replace(' ', "_")),
+        };
+        let got = match reader.snapshot() {
+            Ok(c) => {
+                let b: [u8; 56] = unsafe { std::mem::transmute_copy(c) };
+                format!("{}", i64::from_ne_bytes(b[32..40].try_into().unwrap()))
+            }
+            Err(e) => format!("err_{:?}", e).replace(' ', "_"),
+        };
+        format!("accesses_in_new={} wrote_at={} snapshot_bound={}", accesses, wrote.get(), got)
+    }));
+    set_observer(None);
+    let _ = std::fs::remove_file(&path);
+    match res {
+        Ok(s) => format!("ok {}", s),
+        Err(p) => format!("panic {}", crate::panic_msg(&p).replace(' ', "_")),
+    }
 }
 
 /// recreate <hex bytes>: ShmWriter::new over a file with the given (unusable) content; prints the file afterwards
